@@ -14,7 +14,8 @@
   What is *not* claimed: that candidates are drawn with equal probability — RandomGen draws
   the permutation uniformly and then the source indices with permutation-dependent bounds
   (known finding F15), so equal probability holds only when every instance has the same
-  number of compatible source combinations or a whole unweighted round is drawn.
+  number of compatible source combinations or a whole unweighted round of plain permutations is drawn
+  (`perInstance`).
 
   Proofs: `SPProofs/RandomGen/{Basic,Spec,Round,Count}.lean`; see `SPProofs/RandomGen/NOTES.md`.
 -/
